@@ -129,6 +129,26 @@ impl ComparisonDataset {
 }
 
 /// The ordering result of the dataset comparison algorithm
+#[cfg(feature = "verif")]
+pub(crate) fn verif_dataset(i: crate::verif::CmpInput) -> ComparisonDataset {
+    ComparisonDataset {
+        gm_priority_1: i.gm_priority_1,
+        gm_identity: ClockIdentity(i.gm_identity),
+        gm_clock_quality: ClockQuality {
+            clock_class: i.gm_clock_class,
+            clock_accuracy: crate::config::ClockAccuracy::from_primitive(i.gm_clock_accuracy),
+            offset_scaled_log_variance: i.gm_variance,
+        },
+        gm_priority_2: i.gm_priority_2,
+        steps_removed: i.steps_removed,
+        identity_of_senders: ClockIdentity(i.sender),
+        identity_of_receiver: PortIdentity {
+            clock_identity: ClockIdentity(i.receiver_clock),
+            port_number: i.receiver_port,
+        },
+    }
+}
+
 #[derive(Debug, Clone, Copy, PartialEq, Eq)]
 pub enum DatasetOrdering {
     /// The [ComparisonDataset] is better than the one being compared against
